@@ -260,67 +260,93 @@ def rounds(repo, rule):
 
 
 def padding(repo, rule):
+    """Padding of poseidon_hash, independent of local names: some statement builds  MSG + [ONE] + [ZERO] * Z  (message
+    first, then the marker, then zeros) on every path; with m = t - 1 the rate and n = len(MSG), the number of appended
+    elements 1 + Z equals m - (n mod m): it lies in [1, m] (the marker always fits) and completes the last block.
+    Locals are evaluated in statement order (a name may be re-bound, e.g. `inputs`)."""
     fi = repo.fn(PH, "poseidon_hash")
-    assigns = {}
-    for s in fi.node.body:
-        if isinstance(s, ast.Assign) and isinstance(s.targets[0], ast.Name):
-            assigns.setdefault(s.targets[0].id, []).append(s)
-    pad = assigns.get("num_pad", [None])[0]
-    where = fi.loc(pad) if pad is not None else fi.loc()
     m_ = P.sym("m")
-    env = {"inputs_per_round": m_, "t - 1": m_, "t": m_ + 1, "len(inputs)": P.sym("n")}
-    ipr = assigns.get("inputs_per_round", [None])[0]
-    if ipr is None or poly_of(ipr.value, {"t": m_ + 1}, strict=True) != m_:
-        rule.undecided(where, fi.fq, norm(ipr) if ipr is not None else "", "rate is not t - 1 in an interpretable form")
-        return
-    if pad is None:
-        rule.undecided(where, fi.fq, "num_pad", "padding length variable not found")
-        return
-    got = poly_of(pad.value, env, strict=False)
-    want = m_ - P.sym("Mod(n,m)")
-    if got == want:
-        rule.ok(where, fi.fq, "num_pad = m - n mod m  in [1, m]", "interval: 0 <= n mod m <= m-1")
-    else:
-        rule.violation(where, fi.fq, "num_pad = %s" % got, "padding length is not m - (n mod m): it can be 0 (no marker "
-                       "room) or does not complete the block", "pad/len")
-    env["num_pad"] = got if got is not None else P.sym("num_pad")
-    nz = assigns.get("num_zeros", [None])[0]
-    if nz is not None:
-        env["num_zeros"] = poly_of(nz.value, env, strict=False)
-    # inputs = inputs + [ONE] + [ZERO] * num_zeros
-    reb = [s for s in assigns.get("inputs", []) if isinstance(s.value, ast.BinOp) and "LinComb.ONE" in norm(s.value)]
-    if not reb:
+    n_ = P.sym("n")
+    env = {"t - 1": m_, "t": m_ + 1}
+    msgname = None
+    found = None
+    where = fi.loc()
+    for s in fi.node.body:
+        if not isinstance(s, ast.Assign) or len(s.targets) != 1 or not isinstance(s.targets[0], ast.Name):
+            continue
+        v = s.value
+        parts = []
+
+        def flat(e):
+            if isinstance(e, ast.BinOp) and isinstance(e.op, ast.Add):
+                flat(e.left)
+                flat(e.right)
+            else:
+                parts.append(e)
+        flat(v)
+        if len(parts) >= 2 and any(isinstance(p_, ast.List) and any(norm(e) == "LinComb.ONE" for e in p_.elts) for p_ in parts):
+            found = (s, parts)
+            break
+        # an integer local (rate, number of zeros, ...): its polynomial in m, n
+        lenv = dict(env)
+        if msgname is None:
+            # len(X) of any list-valued name read so far counts as n once X is the message; bind lazily below
+            pass
+        for x in ast.walk(v):
+            if isinstance(x, ast.Call) and norm(x.func) == "len" and x.args and isinstance(x.args[0], ast.Name):
+                lenv[norm(x)] = n_
+                msgname = msgname or x.args[0].id
+        pv = poly_of(v, lenv, strict=False)
+        if pv is not None and not isinstance(v, (ast.List, ast.ListComp, ast.Call)):
+            env[s.targets[0].id] = pv
+    if found is None:
         rule.violation(where, fi.fq, "no marker", "the 1-marker is not appended to the input", "pad/marker")
         return
-    parts = []
-
-    def flat(e):
-        if isinstance(e, ast.BinOp) and isinstance(e.op, ast.Add):
-            flat(e.left)
-            flat(e.right)
-        else:
-            parts.append(e)
-    flat(reb[0].value)
+    s, parts = found
+    w2 = fi.loc(s)
+    rate = [k for k, v in env.items() if v == m_ and k not in ("t - 1",)]
+    if not rate and poly_of(ast.parse("t - 1", mode="eval").body, {"t": m_ + 1}, strict=True) != m_:
+        rule.undecided(w2, fi.fq, norm(s)[:100], "rate is not t - 1 in an interpretable form")
+        return
+    rule.ok(w2, fi.fq, "rate m = t - 1 (%s)" % (", ".join(sorted(rate)) or "inline"))
     count = P()
     order = []
+    lenv = dict(env)
+    msg = None
     for prt in parts:
-        if norm(prt) == "inputs":
-            order.append("inputs")
+        if isinstance(prt, ast.Name):
+            order.append("msg")
+            msg = msg or prt.id
         elif isinstance(prt, ast.List):
             count = count + len(prt.elts)
             order += [norm(e) for e in prt.elts]
-        elif isinstance(prt, ast.BinOp) and isinstance(prt.op, ast.Mult) and isinstance(prt.left, ast.List):
-            count = count + poly_of(prt.right, env, strict=False) * len(prt.left.elts)
-            order.append(norm(prt.left.elts[0]) + "*")
+        elif isinstance(prt, ast.BinOp) and isinstance(prt.op, ast.Mult) and (isinstance(prt.left, ast.List) or isinstance(prt.right, ast.List)):
+            lst, k = (prt.left, prt.right) if isinstance(prt.left, ast.List) else (prt.right, prt.left)
+            if msg is not None:
+                lenv["len(%s)" % msg] = n_
+            kp = poly_of(k, lenv, strict=False)
+            if kp is None:
+                order.append("?" + norm(prt))
+                continue
+            count = count + kp * len(lst.elts)
+            order.append(norm(lst.elts[0]) + "*")
         else:
             order.append("?" + norm(prt))
-    w2 = fi.loc(reb[0])
-    if order[:2] == ["inputs", "LinComb.ONE"] and all(o in ("LinComb.ZERO*",) for o in order[2:]) and count == env["num_pad"]:
-        rule.ok(w2, fi.fq, "padded = inputs + [ONE] + [ZERO]*(num_pad-1): %s elements appended" % count,
+    want = m_ - P.sym("Mod(n,m)")
+    if msg is not None and msgname is not None and msg != msgname:
+        # the length was taken of another list than the one that is padded
+        rule.violation(w2, fi.fq, "len(%s) used to pad %s" % (msgname, msg), "the padding length is computed from a different list than "
+                       "the one that is padded", "pad/len")
+        return
+    if order[:2] == ["msg", "LinComb.ONE"] and all(o in ("LinComb.ZERO*",) for o in order[2:]) and count == want:
+        rule.ok(w2, fi.fq, "padded = message + [ONE] + [ZERO]*Z with 1 + Z = m - (n mod m), in [1, m]",
                 "marker always present; messages of different length never share a padded form")
+    elif order[:2] == ["msg", "LinComb.ONE"] and all(o in ("LinComb.ZERO*",) for o in order[2:]):
+        rule.violation(w2, fi.fq, "appended %s elements, expected %s" % (count, want), "padding length is not m - (n mod m): it can be 0 "
+                       "(no marker room) or does not complete the block", "pad/len")
     else:
-        rule.violation(w2, fi.fq, "order %s, appended %s, num_pad %s" % (order, count, env["num_pad"]),
-                       "padding is not `message, 1, 0...0` with exactly num_pad appended elements", "pad/shape")
+        rule.violation(w2, fi.fq, "order %s, appended %s" % (order, count),
+                       "padding is not `message, 1, 0...0` with exactly m - (n mod m) appended elements", "pad/shape")
 
 
 def ggh(repo, rule):
@@ -472,7 +498,8 @@ def prng_rejection(repo, rule):
                            "`< PRIME`: the generator departs from pure rejection sampling (different coefficients for some indices)",
                            "prng/fallback")
     loops = [n for n in ast.walk(fi.node) if isinstance(n, (ast.While, ast.For))]
-    bounded = [n for n in loops if isinstance(n, ast.For) or (isinstance(n, ast.While) and norm(n.test) not in ("True", "1"))]
+    bounded = [n for n in loops if (isinstance(n, ast.For) and norm(n.iter).split("(")[0] not in ("itertools.count", "count"))
+               or (isinstance(n, ast.While) and norm(n.test) not in ("True", "1"))]
     if bounded:
         rule.violation(fi.loc(bounded[0]), fi.fq, norm(bounded[0])[:80].split(":")[0], "the number of draws is capped: indices whose first "
                        "draws are all rejected get a different coefficient", "prng/bounded")
